@@ -595,6 +595,61 @@ def io_reuse_check(cfg, alphabet, vio_cap=3):
     return vs, runs
 
 
+def stream_share_check(cfg, alphabet, vio_cap=3):
+    """Two I/O objects in a row over ONE underlying (seekable) byte stream - two commands of one process reading the same
+    redirected standard input: the second dialogue must go on with the lines the first one left, exactly as if one I/O object
+    had served both."""
+    import io as _io
+    from clikit.io.input_stream.stream_input_stream import StreamInputStream
+    c = _classes()
+
+    class CountingBytes(_io.BytesIO):
+        budget = 0
+        reads = 0
+
+        def readline(self, *a):
+            self.reads += 1
+            if self.reads > self.budget:
+                raise BudgetExceeded("read")
+            return _io.BytesIO.readline(self, *a)
+
+    def one(q, io):
+        try:
+            return ["return", q.ask(io)]
+        except BudgetExceeded as e:
+            return ["budget", e.which]
+        except Exception as e:
+            return ["raise", "%s: %s" % (type(e).__name__, e)]
+
+    def dialogue(s1, s2, two):
+        stream = CountingBytes("".join(l + "\n" for l in s1 + s2).encode("utf-8"))
+        stream.budget = len(s1) + len(s2) + 6
+        fmt = c["PlainFormatter"]()
+
+        def mk():
+            return c["IO"](c["Input"](StreamInputStream(stream)), c["Output"](c["CountingOutput"](400), fmt), c["Output"](c["CountingOutput"](400), fmt))
+        io1 = mk()
+        r1 = one(make_choice(cfg), io1)
+        r2 = one(make_choice(cfg), mk() if two else io1)
+        return [r1, r2, stream.reads]
+
+    scripts = [()] + [(a,) for a in alphabet] + [(a, b) for a in alphabet[:3] for b in alphabet[:3]]
+    vs = []
+    runs = 0
+    for s1 in scripts:
+        for s2 in scripts[:1 + len(alphabet)]:
+            ref, got = dialogue(s1, s2, False), dialogue(s1, s2, True)
+            runs += 4
+            if ref != got and len(vs) < vio_cap:
+                case = dict(cfg, kind="stream-share", script=list(s1), script2=list(s2))
+                vs.append(report.viol("io-share:second-io-on-one-stream-differs",
+                                      "two dialogues on two I/O objects over one input stream differ from the same two dialogues on one I/O "
+                                      "object | choices=%r multi=%r default=%r attempts=%r lines=%r" % (
+                                          cfg["choices"], cfg["multi"], cfg["default"], cfg["attempts"], list(s1 + s2)),
+                                      case, ref, got))
+    return vs, runs
+
+
 # ----------------------------------------------------------------------------------------------
 # confirmation questions
 # ----------------------------------------------------------------------------------------------
@@ -730,6 +785,13 @@ def replay(case):
             if v["case"]["script"] == case["script"] and v["case"]["script2"] == case["script2"] and v["case"]["how"] == case["how"]:
                 return v
         return None
+    if kind == "stream-share":
+        cfg = _cfg_of(case)
+        vs, _ = stream_share_check(cfg, sorted(set(case["script"]) | set(case["script2"])), vio_cap=1000)
+        for v in vs:
+            if v["case"]["script"] == case["script"] and v["case"]["script2"] == case["script2"]:
+                return v
+        return None
     if kind == "confirm":
         return confirm_case(case["pattern"], case["default"], case["answer"])
     if kind == "nonint":
@@ -773,7 +835,9 @@ def main():
             tot["reuse_runs"] += n
             rv2, n2 = io_reuse_check(cfg, alphabet)
             tot["reuse_runs"] += n2
-            rv = rv + rv2
+            rv3, n3 = stream_share_check(cfg, alphabet)
+            tot["reuse_runs"] += n3
+            rv = rv + rv2 + rv3
             vs.extend(rv)
         tot["stty_calls"] = _NoSubprocess.calls - calls0
         # keep the first few per signature only (the Report keeps the first anyway)
